@@ -5,7 +5,7 @@
 (* (set of failed clauses) is printed as one JSON line when non-empty.     *)
 (* Acceptance = every line of the trace file was consumed.                 *)
 (***************************************************************************)
-EXTENDS JudgeTx, JudgeSat, JudgeGraph, JudgeLint, JudgeApi, JudgeComp, JudgeFrame, JudgeLogic, CGBenchIO, Json, IOUtils
+EXTENDS JudgeTx, JudgeSat, JudgeGraph, JudgeLint, JudgeApi, JudgeComp, JudgeFrame, JudgeLogic, CGBenchIO, CGExprReader, Json, IOUtils
 
 Tr == ndJsonDeserialize(IOEnv.TRACE_FILE)
 
@@ -41,12 +41,13 @@ JudgeEvent(e) ==
     [] e.kind = "logic" -> Judge_logic(e)
     [] e.kind = "clog2" -> Judge_clog2(e)
     [] e.kind = "int_to_bin" -> Judge_int_to_bin(e)
-    [] e.kind = "parse" -> Judge_parse(e) \cup DriftParse(e) \cup DriftBenchParse(e)
+    [] e.kind = "parse" -> Judge_parse(e) \cup DriftParse(e) \cup DriftBenchParse(e) \cup DriftExprParse(e)
     [] e.kind = "v_roundtrip" -> Judge_v_roundtrip(e) \cup DriftRoundTrip(e)
     [] e.kind = "bench_roundtrip" -> Judge_bench_roundtrip(e) \cup DriftBenchRoundTrip(e)
     [] e.kind = "parse2" -> Judge_parse2(e) \cup DriftParse2(e)
     [] e.kind = "api_history"  -> Judge_api_history(e)
     \* a call the drivers expected to return (or to raise one of the exceptions they record) raised inside the library
+    [] e.kind = "as_built" -> Judge_as_built(e)
     [] e.kind = "driver_exception" -> {"unexpected_exception:" \o e.exc \o "@" \o e.where}
     [] OTHER -> {"MACHINERY:unknown_kind"}
 
